@@ -1,10 +1,15 @@
 (** Executable glue of the C12 correspondence run: a case is a document tree plus the table of
     [f64::from_str] results for the strings occurring in it; the dump is the parser outcome. *)
-Require Export Norad.Run.RunBase Norad.Run.Pack Norad.Run.GlifDump Norad.Model.GlifParse.
+Require Export Norad.Run.RunBase Norad.Run.Pack Norad.Run.GlifDump Norad.Model.GlifSpec.
 Open Scope N_scope.
 
 Definition case := (doc * list (str * option fl))%type.
-Definition run_case (c : case) : tm := tm_res (parse_glif (pf_of (snd c)) (fst c)).
+(** the reader's outcome, the verdict of the rule predicate and the class predicates *)
+Definition run_case (c : case) : tm :=
+  let pf := pf_of (snd c) in
+  L_ [tm_res (parse_glif pf (fst c));
+      L_ [tm_bool (glif_okb pf (fst c)); tm_bool (f14b (fst c)); tm_bool (f16b (fst c));
+          tm_bool (f17b (fst c))]].
 
 (** ---------- decoding of the transported case ---------- *)
 Definition str_of_xt (x : xt) : str := match x with XS s => s | _ => [] end.
